@@ -166,7 +166,7 @@ def expected(regions, data, start):
 
 
 @C.oracle('region')
-def o_region(src_greedy, src_tell, src_small, data, start, depth, idx):
+def o_region(src_greedy, src_tell, src_small, data, start, depth, idx, src_raw=None):
     # regions are rebuilt from the recorded seed so that the replay is self-contained
     _, ls = make_nest(idx[0], idx[1])
     regs = [l[1] for l in ls]
@@ -200,6 +200,16 @@ def o_region(src_greedy, src_tell, src_small, data, start, depth, idx):
     s = run(src_small)
     if s[0] == 'ok' and s[2] != outer_end:
         return 'outer stream at %d when the inner construct consumed one byte, contract says %d' % (s[2], outer_end)
+    if src_raw is not None:
+        r = run(src_raw)
+        if r[0] != 'ok':
+            return 'RawCopy(GreedyBytes) inside the region raised %s' % r[1]
+        v = r[1]
+        if (v.offset1, v.offset2, v.length) != (absstart, absstart + len(inner), len(inner)):
+            return 'RawCopy inside the region reports offsets %d..%d (length %d), the region is %d..%d of the outermost stream' % (
+                v.offset1, v.offset2, v.length, absstart, absstart + len(inner))
+        if v.data != inner or v.value != inner:
+            return 'RawCopy inside the region reports data %r / value %r, the region holds %r' % (v.data, v.value, inner)
     return None
 
 
@@ -274,7 +284,7 @@ def run(tier, seed):
                 checks.append((srcs, data, start, depth, (seed, salt)))
     acc.corr(cases, 'region')
     for srcs, data, start, depth, idx in checks:
-        acc.check('region', srcs['g'], src_tell=srcs['t'], src_small=srcs['b'], data=data, start=start, depth=depth, idx=idx)
+        acc.check('region', srcs['g'], src_tell=srcs['t'], src_small=srcs['b'], data=data, start=start, depth=depth, idx=idx, src_raw=srcs['r'])
     return acc.result(
         rule='random nests (depth 1..4) of Prefixed(Byte/Int16ub/Int16ul/VarInt, +-includelength) / FixedSized / NullTerminated(term 1-2 '
              'bytes, include, consume, require) / NullStripped(pad 1-2 bytes) / OffsettedEnd / ProcessXor around GreedyBytes, Tell, '
